@@ -69,6 +69,14 @@ def run(S):
     # equations with letters, line-break backslashes, alignment points; blanks / line breaks at every gap and edge
     f6 += twopass.explore_equation(S, max_atoms=2 if S.tier == 'quick' else 4)
     twopass.report(S, 'C03', f6)
+    # two passes with the real parser in between: whole documents (tables, content blocks, chains, imports, equations, lists, prose), blanks symbolic,
+    # the renderer interpreted at representative widths
+    from . import reparse, deep
+    rdocs = reparse.TABLE_DOCS + reparse.BLOCK_DOCS + reparse.MISC_DOCS + deep.DOCS + deep.PROSE
+    if S.tier != 'quick':
+        rdocs += deep.OFF_DOCS + deep.CODE_DOCS + deep.EMBED_DOCS
+    fr, covr = reparse.explore(S, rdocs, tabs=(2,) if S.tier == 'quick' else (2, 4), widths=(0, 40, 1 << 30) if S.tier == 'quick' else (0, 20, 40, 80, 120, 1 << 30))
+    reparse.report(S, 'C03', fr)
     # with reordering on, the chosen order must not depend on spacing that formatting normalises
     f4 = c19.explore_spacing(S, 2 if S.tier == 'quick' else 3)
     groups = {}
